@@ -149,9 +149,21 @@ func VerifHarness_C01_step() {
 	}
 	r.verifLoggedOnState(kind, T)
 	m := r.verifEvent("ev", T, 66)
+	S, sOK := m.Header.GetInt(tagMsgSeqNum)
+	mt, _ := m.MsgType()
+	resetMode := mt == "4" && !m.Body.Has(tagGapFillFlag)
 	r.s.fixMsgIn(r.s, m)
 	r.pump()
 	T1 := r.st.NextTargetMsgSeqNum()
+	if sOK == nil && S != T && !resetMode {
+		verifAssert(T1 == T, "step-expected-number-changes-only-when-the-expected-message-arrives")
+	}
+	if resetMode {
+		ns, e := m.Body.GetInt(tagNewSeqNo)
+		if e == nil && ns <= T {
+			verifAssert(T1 == T, "step-reset-not-moving-forward-changes-nothing")
+		}
+	}
 	r.checkDeliveries("step")
 	verifAssert(T1 >= T, "step-expected-number-never-moves-backwards")
 	// what was delivered is the event or a stashed message, never anything else, never twice
